@@ -9,21 +9,32 @@ import (
 )
 
 func createLockFile(name string, perm os.FileMode) (LockFile, bool, error) {
-	acquiredExisting := false
-	if _, err := os.Stat(name); err == nil {
-		acquiredExisting = true
-	}
-	verifYield(1)
-	f, err := os.OpenFile(name, os.O_RDWR|os.O_CREATE, perm)
-	if err != nil {
-		return nil, false, err
-	}
-	verifYield(2)
-	if err := syscall.Flock(int(f.Fd()), syscall.LOCK_EX|syscall.LOCK_NB); err != nil {
-		if err == syscall.EWOULDBLOCK {
-			err = os.ErrExist
+	for {
+		acquiredExisting := false
+		if _, err := os.Stat(name); err == nil {
+			acquiredExisting = true
 		}
-		return nil, false, err
+		verifYield(1)
+		f, err := os.OpenFile(name, os.O_RDWR|os.O_CREATE, perm)
+		if err != nil {
+			return nil, false, err
+		}
+		verifYield(2)
+		if err := syscall.Flock(int(f.Fd()), syscall.LOCK_EX|syscall.LOCK_NB); err != nil {
+			if err == syscall.EWOULDBLOCK {
+				err = os.ErrExist
+			}
+			return nil, false, err
+		}
+		verifYield(4)
+		// The previous owner could have removed the file (Unlock) after it was opened here.
+		// A lock on a removed file doesn't exclude anyone, make sure the locked file is still
+		// the one the name refers to, otherwise start over.
+		if locked, err := f.Stat(); err == nil {
+			if cur, err := os.Stat(name); err == nil && os.SameFile(locked, cur) {
+				return &osLockFile{f, name}, acquiredExisting, nil
+			}
+		}
+		_ = f.Close()
 	}
-	return &osLockFile{f, name}, acquiredExisting, nil
 }
